@@ -14,7 +14,7 @@ func init() {
 var accNames = []string{"bit", "byte", "u8", "i8", "u16", "i16", "u32", "u32o", "i32", "i32o", "u64", "u64o", "i64", "i64o",
 	"f32", "f32o", "f64", "f64o", "str", "stro", "reg", "dreg", "qreg"}
 
-var orders = []int{0, 1, 2, 5, 6, 9, 10, 4, 8}
+var orders = []int{0, 1, 2, 5, 6, 9, 10, 4, 8, 3, 7, 11, 15, 12, 13, 14}
 
 func accOp(rng *rand.Rand, name string, addr int) string {
 	o := orders[rng.Intn(len(orders))]
